@@ -27,6 +27,7 @@ SEMANTIC = [
     ("could not prove termination", "termination"),
     ("loop invariant not satisfied", "invariant"),
     ("unable to prove post-condition of closure", "closure-postcondition"),
+    ("precondition not met", "precondition"),        # e.g. "precondition not met: index in bounds for this access" (slice / Vec indexing)
     ("unreachable", "panic"),
     ("panic", "panic"),
     ("possible bit shift underflow/overflow", "overflow"),
